@@ -224,6 +224,13 @@ class Agent(dbus.service.Object):
                 # which is only meaningful if that is what was received
                 self._logger.warning('Ignoring bundle which does not re-encode to the received data')
                 return
+            if (not bundle.blocks
+                    or bundle.blocks[-1].getfieldval('type_code') != Bundle.BLOCK_TYPE_PAYLOAD
+                    or bundle.blocks[-1].getfieldval('block_num') != Bundle.BLOCK_NUM_PAYLOAD):
+                # e.g. cut short by a convergence layer which delimits
+                # bundles by their encoding (a damaged octet read as "break")
+                self._logger.warning('Ignoring bundle which does not end with its payload block')
+                return
             ctr = BundleContainer(bundle)
             self.recv_bundle(ctr)
 
